@@ -7,12 +7,12 @@ import time
 from framework.checklib import CorrResult
 from framework import coqrun
 from harness import funccorr as fc
-from translator import t9_circuit_core, t10_circuit_algos, t11_truth_table, t25_circuit_proto
+from translator import t9_circuit_core, t10_circuit_algos, t11_truth_table, t25_circuit_proto, t26_py_factories
 
 ID = 'C12'
 CORPUS = pathlib.Path(__file__).resolve().parent.parent / 'harness' / 'corpus' / 'C12'
 TRANSLATORS = [t9_circuit_core.translate, t10_circuit_algos.translate, t11_truth_table.translate,
-               t25_circuit_proto.translate]
+               t25_circuit_proto.translate, t26_py_factories.translate]
 PROPERTY_FILE = 'Properties/C12.v'
 THEOREMS = ['C12_product_is_canonical_order', 'C12_fixed_sum_iterator', 'C12_fixed_sum_iterator_no_negations',
             'C12_symmetric_iff_constant_on_weight_classes', 'C12_monotone_is_sorted_row',
@@ -26,7 +26,8 @@ THEOREMS = ['C12_product_is_canonical_order', 'C12_fixed_sum_iterator', 'C12_fix
             'C12_pyfunction_constructor', 'C12_from_int_unary_func_sizes', 'C12_from_int_binary_func_sizes',
             'C12_memoised_circuit_queries', 'C12_example_represented',
             'C12_truth_table_regenerated', 'C12_truth_table_regenerated_define_applies',
-            'C12_circuit_protocol_regenerated', 'C12_circuit_protocol_corner']
+            'C12_circuit_protocol_regenerated', 'C12_circuit_protocol_corner',
+            'C12_factories_regenerated', 'C12_factories_regenerated_example']
 PARTIAL = {}
 LEVEL_TEXT = ('for every Boolean function f with arities n, m >= 1 and every query of the protocol with index arguments '
               'inside the arities, the modelled code of Circuit, TruthTable and PyFunction (three different algorithms '
@@ -61,8 +62,17 @@ LEVEL_NOTE = ('Coq kernel + vm_compute; hand-written model of the code repaired 
               'proved unobservable - for EVERY circuit no Undefined comes out of a Boolean input vector. The fuel '
               'parameters are those of the model\'s evaluators (Python has none); index_of_output is specified '
               'directly (first index). Circuit.evaluate / evaluate_at / get_truth_table are regenerated by T10 '
-              '(C02), gates_number by T16 (C16). Not regenerated for C12: the static factories of PyFunction '
-              '(from_positional, from_int_*_func) and PyFunctionModel.define (they build closures). Hypotheses of the query theorems: the circuit computes f through Circuit.evaluate/evaluate_at '
+              '(C02), gates_number by T16 (C16). Translator T26 (T11\'s machinery + closures as values, '
+              '@staticmethod, @functools.wraps = identity on behaviour, assert, l[::-1], l[:i], Mapping lookup) regenerates '
+              'what builds closures: PyFunction.from_int_unary_func / from_int_binary_func / from_positional, '
+              'PyFunctionModel.from_positional and PyFunctionModel.define (Generated/PyFactoriesGen.v: the factory takes the '
+              'user\'s callable and returns the record whose func field is the translated closure), and '
+              'C12_factories_regenerated proves each extensionally equal (same exception, or same sizes and func fields '
+              'equal on EVERY argument list) to from_int_unary_func / from_int_binary_func / pm_define of the hand model for '
+              'natural sizes and total integer functions on the naturals; from_positional has no hand-model counterpart and '
+              'is specified directly, with what inspect.signature reports (the list of parameter kinds) as an explicit '
+              'modelling parameter and BadCallableError printed as PyTypeError; tp.cast to bool cells of a list that still '
+              'holds a DontCare is GateStateError on both sides. Hypotheses of the query theorems: the circuit computes f through Circuit.evaluate/evaluate_at '
               '(that evaluate is the netlist semantics is C01), the callable computes f, the table is the table of f; '
               'm >= 1 (a TruthTable with no output cannot be constructed). "monotone" is the protocol\'s documented '
               'notion (output sequence in enumeration order non-decreasing / non-increasing), NOT lattice monotonicity. '
@@ -71,7 +81,8 @@ LEVEL_NOTE = ('Coq kernel + vm_compute; hand-written model of the code repaired 
 TECHNIQUE = ('fail-closed ast translation of truth_table.py / utils.py / python_function.py and of the protocol methods '
              'of circuit.py to Gallina (loops with break / return as a control-flow fold, generators as lists, objects '
              'as records, in-place lists as rebinding; the Circuit methods on the state of T9 / T10 with GateState '
-             'values) proved equal to the hand model (loop lemmas generic in the body, instantiated by unification); '
+             'values; closure-building factories as functions from the user callable to the record holding the '
+             'translated closure) proved equal to the hand model (loop lemmas generic in the body, instantiated by unification); '
              'Coq proof: enumeration lemmas (itertools.product order = big-endian index bijection; combinations <-> '
              'weight classes; zip(*rows) of a rectangular matrix), each Python loop with early exit shown equal to a '
              'pure fold over a total evaluator, the three monotonicity loops shown to decide StronglySorted of the '
